@@ -269,6 +269,21 @@ func c06FamHas(r *Run, full bool) []c06m {
 			}
 		}
 	}
+	// structured condition values against structured field values (objects with objects, lists of
+	// objects with lists): always emitted
+	for _, c := range []string{"EQ", "NEQ", "WITHIN", "WITHOUT", "CONTAINS", "GT", "INSIDE"} {
+		for _, k := range []string{"nest", "tags", "$", "$a.nest"} {
+			for _, v := range []interface{}{c06m{"k": 1}, c06m{}, c06a{c06m{"k": 1}}, c06a{"x", "y"}, c06a{c06a{"x", "y"}}, c06m{"k": c06m{"j": c06a{}}}} {
+				h := c06Cond(k, c, v)
+				if k == "$a.nest" {
+					out = append(out, c06Query(c06m{"v": c06a{}}, c06m{"as": "a"}, c06m{"out": c06a{}}, h))
+				} else {
+					out = append(out, c06Query(c06m{"v": c06a{}}, h))
+				}
+				r.Count("fam:has.structured")
+			}
+		}
+	}
 	// degenerate expressions
 	for _, h := range []c06m{
 		{"has": c06m{}}, {"has": c06m{"and": c06m{}}}, {"has": c06m{"or": c06m{"expressions": c06a{}}}},
